@@ -212,7 +212,7 @@ func richDoc(id int, g *docGen) string {
 			{"/a/b/c/d/e/f/g/h/2", "/a/b/c/d/e/f/g/h/3", "/a/2"},
 			{"/zqt/12/p/1", "/zqt/13/p/2", "/zqt/14/p/3"},
 		}
-		set := sets[(id/nRichDocs+r.Intn(3))%len(sets)]
+		set := sets[(id/nRichDocs)%len(sets)]
 		var sb strings.Builder
 		for i, h := range set {
 			if i == 1 && r.Intn(2) == 0 {
